@@ -50,6 +50,10 @@ pub enum Mutation {
     DuplicateSig(u16),
     /// signature `which`+1 replaced by a second, different signature of signer `which` (other flag byte)
     SameSignerTwice(u16, u8),
+    /// a byte with a flag's value inserted between DER signature `which` and its flag byte
+    ExtraByteBeforeFlag(u16, u8),
+    /// the flag byte of signature `which` removed (the DER signature's own last byte is then read as the flag)
+    DropFlagByte(u16),
     /// signature `which` made over another subscript (the whole locking script although a code separator precedes, or vice versa)
     WrongSubscript(u16),
 }
@@ -210,7 +214,7 @@ impl Property for C15 {
     const ID: &'static str = "C15";
 
     fn rule() -> String {
-        "Spending transactions (1..4 inputs, 0..4 outputs, boundary-valued fields), any input index, any u64 declared value, 1..3 keys (both compression forms, boundary scalars); locking scripts P2PK, P2PKH and bare m-of-n multisig (1<=m<=n<=3), each also in the ...VERIFY OP_1 form, with OP_CODESEPARATOR inserted at random positions, and (35 %) preceded by or placed inside conditionals on constant conditions whose branches hold NOPs, code separators and further conditionals (so the last executed separator may sit inside a taken branch, after a skipped one, or after a whole conditional, and the subscript may begin inside a conditional); each signature's flag from the twelve standard bytes; the spend is built and signed through the library's own API (Transaction::sign, set_locking_script, set_satoshis, pushes for the unlocking script) and then optionally mutated in one field (version, locktime, an outpoint, a sequence, an output value/script, an added output, the declared value, a public key, r, s, the flag byte, signature order, a dropped signature, a foreign signer, a signature over the byte-reversed digest, a signature over the wrong subscript, one signer's signature used twice). Half of the cases run the spend a second time on the very Transaction object that produced the signatures (its sighash caches warm), edited through set_version / set_nlocktime / set_input / set_output / add_output instead of re-parsed; it must serialise like the re-parsed spend and give the same verdict. Oracle: the reference predicts accept/reject by verifying every (signature, key) pair with the reference ECDSA over reference SHA-256d of the reference preimage (C03/C10 oracle) of the current transaction with the flag from the signature, the subscript after the last code separator executed before the CHECK opcode (found by walking the written-out script with its known conditions) and the declared value, multisig by ordered matching; the library must accept (run Ok and true on top) exactly when the reference does. Non-trivial = a mutated spend, a flag other than ALL, a code separator, a conditional, or m < n; distinct by hash of the serialised case.".into()
+        "Spending transactions (1..4 inputs, 0..4 outputs, boundary-valued fields), any input index, any u64 declared value, 1..3 keys (both compression forms, boundary scalars); locking scripts P2PK, P2PKH and bare m-of-n multisig (1<=m<=n<=3), each also in the ...VERIFY OP_1 form, with OP_CODESEPARATOR inserted at random positions, and (35 %) preceded by or placed inside conditionals on constant conditions whose branches hold NOPs, code separators and further conditionals (so the last executed separator may sit inside a taken branch, after a skipped one, or after a whole conditional, and the subscript may begin inside a conditional); each signature's flag from the twelve standard bytes; the spend is built and signed through the library's own API (Transaction::sign, set_locking_script, set_satoshis, pushes for the unlocking script) and then optionally mutated in one field (version, locktime, an outpoint, a sequence, an output value/script, an added output, the declared value, a public key, r, s, the flag byte, signature order, a dropped signature, a foreign signer, a signature over the byte-reversed digest, a signature over the wrong subscript, one signer's signature used twice, a flag-valued byte inserted before the flag byte, the flag byte removed). Half of the cases run the spend a second time on the very Transaction object that produced the signatures (its sighash caches warm), edited through set_version / set_nlocktime / set_input / set_output / add_output instead of re-parsed; it must serialise like the re-parsed spend and give the same verdict. Oracle: the reference predicts accept/reject by verifying every (signature, key) pair with the reference ECDSA over reference SHA-256d of the reference preimage (C03/C10 oracle) of the current transaction with the flag from the signature, the subscript after the last code separator executed before the CHECK opcode (found by walking the written-out script with its known conditions) and the declared value, multisig by ordered matching; the library must accept (run Ok and true on top) exactly when the reference does. Non-trivial = a mutated spend, a flag other than ALL, a code separator, a conditional, or m < n; distinct by hash of the serialised case.".into()
     }
 
     fn assumptions() -> Vec<String> {
@@ -245,6 +249,8 @@ impl Property for C15 {
             (any::<u16>(), keys::scalar()).prop_map(|(w, s)| Mutation::ForeignSigner(w, s)),
             any::<u16>().prop_map(Mutation::ReversedDigest),
             any::<u16>().prop_map(Mutation::WrongSubscript),
+            (any::<u16>(), 0u8..12).prop_map(|(w, x)| Mutation::ExtraByteBeforeFlag(w, x)),
+            any::<u16>().prop_map(Mutation::DropFlagByte),
             any::<u16>().prop_map(Mutation::DuplicateSig),
             (any::<u16>(), 0u8..12).prop_map(|(w, f)| Mutation::SameSignerTwice(w, f)),
         ];
@@ -414,6 +420,15 @@ impl Property for C15 {
                     } else {
                         mutated = false;
                     }
+                }
+                Mutation::ExtraByteBeforeFlag(w, x) => {
+                    let k = gen::pick(*w, sigs.len());
+                    let at = sigs[k].len() - 1;
+                    sigs[k].insert(at, STANDARD_FLAGS[(*x % 12) as usize]);
+                }
+                Mutation::DropFlagByte(w) => {
+                    let k = gen::pick(*w, sigs.len());
+                    sigs[k].pop();
                 }
                 Mutation::WrongSubscript(w) => {
                     let k = gen::pick(*w, sigs.len());
